@@ -169,6 +169,11 @@ def r2_tables(ctx):
             elif what == "std" and vkind == "IndividualLatentVariable":
                 good = kind == "nif" and isinstance(base, FuncRef) and base.name == "compute_individual_parameter_std_from_sufficient_statistics" \
                     and params == ("state", v, f"{v}_sqr") and kws.get("dim") == lvl_ind and kws.get("individual_parameter_name") == v
+                extra = sorted(set(kws) - {"dim", "individual_parameter_name"}) if kind == "nif" else []
+                if good and extra:
+                    # R2b decides the formula for the default options of the function only: an option set by one parameter selects another branch
+                    ctx.violation("C04.R2", where, None, f"{g.cfg.name}: the rule of `{nm}` is called with the extra option(s) {dict((k, kws[k]) for k in extra)}: not the documented "
+                                  f"dispersion around the mean held before the step (the formula rule covers the default options only)", construct=cons + " (options)", instance=g.cfg.name)
                 ctx.check(good, "C04.R2", where, None, f"{g.cfg.name}: prior std of `{v}` from E[{v}^2], E[{v}] over the individual axis and the old mean",
                           f"{g.cfg.name}: rule of `{nm}` is not the documented dispersion of `{v}` over the individual axis (got {base!r}{params} {kws})", construct=cons, instance=g.cfg.name)
                 if burn is not None:
@@ -200,6 +205,21 @@ def r2b_dispersion_formula(ctx):
         ctx.violation("C04.R2b", f, rets[0] if rets else f.node, "the dispersion is not returned through compute_std_from_variance(variance, ...) (positivity guard + square root)")
         return
     var_expr = inl.resolve(rets[0].value.args[0])
+    # options with a constant default: the formula is decided for the defaults (R2 checks that no parameter overrides them)
+    defaults_ = {p.arg: d for p, d in zip(a.kwonlyargs, a.kw_defaults) if d is not None and isinstance(d, ast.Constant)}
+    defaults_.update({p.arg: d for p, d in zip(a.args[len(a.args) - len(a.defaults):], a.defaults) if isinstance(d, ast.Constant)})
+
+    class _PickDefault(ast.NodeTransformer):
+        def visit_IfExp(self, n):
+            self.generic_visit(n)
+            t = n.test
+            neg = isinstance(t, ast.UnaryOp) and isinstance(t.op, ast.Not)
+            nm_ = t.operand if neg else t
+            if isinstance(nm_, ast.Name) and nm_.id in defaults_ and isinstance(defaults_[nm_.id].value, bool):
+                val = defaults_[nm_.id].value != neg
+                return n.body if val else n.orelse
+            return n
+    var_expr = _PickDefault().visit(var_expr)
     M, Ex, Ex2 = sp.symbols("m_old Ex Ex2", real=True)
 
     def hook(nz, e):
